@@ -21,6 +21,35 @@ if REPO not in sys.path:
 # S1 -------------------------------------------------------------------------
 logging.disable(logging.CRITICAL)
 
+
+class _NullLogger:
+    """S1: logging is not the subject of any property; rsocket.logger.logger() does a logging.getLogger() lookup on
+    every call (10% of an endpoint harness under the tracer) - hand out one inert object instead"""
+
+    def _noop(self, *a, **kw):
+        pass
+
+    debug = info = warning = error = exception = critical = log = _noop
+
+    def isEnabledFor(self, level):
+        return False
+
+
+_NULL_LOGGER = _NullLogger()
+
+
+def _null_logger():
+    return _NULL_LOGGER
+
+
+def _patch_loggers():
+    import rsocket.logger as _lg
+    orig = _lg.logger
+    for name, mod in list(sys.modules.items()):
+        if (name == 'rsocket' or name.startswith('rsocket.')) and mod is not None and getattr(mod, 'logger', None) is orig:
+            mod.logger = _null_logger
+    _lg.logger = _null_logger          # modules imported later bind the inert one directly
+
 # back end selection (before rsocket is imported) ------------------------------
 assert 'rsocket' not in sys.modules or os.environ.get('VERIF_ALLOW_PREIMPORT'), 'vlib.env must be imported before rsocket'
 if BACKEND == 'native':
@@ -90,6 +119,10 @@ if not REPLAY:
     rsocket.extensions.authentication.bytearray = _bytearray
     # S4
     rsocket.frame_fragmenter.BytesIO = PyBytesReader
+
+if not REPLAY:
+    import rsocket.rsocket_client, rsocket.rsocket_server, rsocket.routing.routing_request_handler  # noqa: E402,F401
+    _patch_loggers()
 
 _expected = {'native': 'parse_header_native', 'model': 'parse_header_cbitstruct'}[BACKEND]
 assert rsocket.frame.ParseHelper.parse_header.__name__ == _expected, (
